@@ -218,6 +218,236 @@ unsafe extern "C" fn fr_wake_by_ref(p: *const ()) {
 
 const NH: usize = 6;
 
+
+// ------------------------------------------------------------------------------------------------
+// several tasks: a small self-contained simulation inside one step. Up to three caller wakers,
+// told apart by vtable only (same data pointer), by data pointer only (same vtable) or by both,
+// poll one future object in turn; the future keeps a clone of whatever waker each poll brought.
+// Books are per caller waker: a handle obtained in a poll with waker k (and every clone of it)
+// wakes k and only k, and holds one clone of k until it is released.
+// ------------------------------------------------------------------------------------------------
+const TK: usize = 3;
+static T_LIVE: [[std::sync::atomic::AtomicI64; TK]; TK] = [const { [const { std::sync::atomic::AtomicI64::new(0) }; TK] }; TK];
+static T_WAKES: [[AtomicU64; TK]; TK] = [const { [const { AtomicU64::new(0) }; TK] }; TK];
+fn t_idx(d: *const ()) -> usize {
+    (d as usize / 8).min(TK - 1)
+}
+fn t_data(i: usize) -> *const () {
+    // null for 0: the same legitimate "state lives elsewhere" waker as above; small aligned
+    // addresses otherwise, never dereferenced
+    std::ptr::without_provenance::<()>(i * 8)
+}
+fn t_clone<const V: usize>(d: *const ()) -> std::task::RawWaker {
+    T_LIVE[V][t_idx(d)].fetch_add(1, Ordering::SeqCst);
+    std::task::RawWaker::new(d, t_vtable(V))
+}
+fn t_wake<const V: usize>(d: *const ()) {
+    T_WAKES[V][t_idx(d)].fetch_add(1, Ordering::SeqCst);
+    T_LIVE[V][t_idx(d)].fetch_sub(1, Ordering::SeqCst);
+}
+fn t_wake_ref<const V: usize>(d: *const ()) {
+    T_WAKES[V][t_idx(d)].fetch_add(1, Ordering::SeqCst);
+}
+fn t_drop<const V: usize>(d: *const ()) {
+    T_LIVE[V][t_idx(d)].fetch_sub(1, Ordering::SeqCst);
+}
+static T_VT0: std::task::RawWakerVTable = std::task::RawWakerVTable::new(t_clone::<0>, t_wake::<0>, t_wake_ref::<0>, t_drop::<0>);
+static T_VT1: std::task::RawWakerVTable = std::task::RawWakerVTable::new(t_clone::<1>, t_wake::<1>, t_wake_ref::<1>, t_drop::<1>);
+static T_VT2: std::task::RawWakerVTable = std::task::RawWakerVTable::new(t_clone::<2>, t_wake::<2>, t_wake_ref::<2>, t_drop::<2>);
+fn t_vtable(v: usize) -> &'static std::task::RawWakerVTable {
+    match v {
+        0 => &T_VT0,
+        1 => &T_VT1,
+        _ => &T_VT2,
+    }
+}
+
+struct Stash {
+    out: Arc<Mutex<Vec<Waker>>>,
+}
+impl Future for Stash {
+    type Output = u32;
+    fn poll(self: Pin<&mut Self>, cx: &mut Context<'_>) -> Poll<u32> {
+        let w = cx.waker().clone();
+        self.out.lock().unwrap().push(w);
+        Poll::Pending
+    }
+}
+impl Stream for Stash {
+    type Item = u32;
+    fn poll_next(self: Pin<&mut Self>, cx: &mut Context<'_>) -> Poll<Option<u32>> {
+        let w = cx.waker().clone();
+        self.out.lock().unwrap().push(w);
+        Poll::Pending
+    }
+}
+
+fn tasks_sim(step: &Step, counts: &mut Vec<&'static str>) -> Result<String, Violation> {
+    let ident = step.arg(0).rem_euclid(3);
+    let ntask = 2 + (step.arg(1).rem_euclid(2)) as usize;
+    let as_stream = step.arg(2) & 1 == 1;
+    // (vtable, data) of task k
+    let id = |k: usize| -> (usize, usize) {
+        match ident {
+            0 => (k, 0),
+            1 => (0, k),
+            _ => (k, (k + 1) % TK),
+        }
+    };
+    for row in T_LIVE.iter() {
+        for c in row {
+            c.store(0, Ordering::SeqCst);
+        }
+    }
+    for row in T_WAKES.iter() {
+        for c in row {
+            c.store(0, Ordering::SeqCst);
+        }
+    }
+    let mut callers: Vec<Option<Waker>> = (0..ntask)
+        .map(|k| {
+            let (v, d) = id(k);
+            T_LIVE[v][d].store(1, Ordering::SeqCst);
+            Some(unsafe { Waker::from_raw(std::task::RawWaker::new(t_data(d), t_vtable(v))) })
+        })
+        .collect();
+    let out: Arc<Mutex<Vec<Waker>>> = Arc::new(Mutex::new(Vec::new()));
+    let stash = Stash { out: out.clone() };
+    let mut fut: Option<Pin<Box<dyn Future<Output = u32> + Send>>> = None;
+    let mut strm: Option<Pin<Box<dyn Stream<Item = u32> + Send>>> = None;
+    track(|| {
+        if as_stream {
+            strm = Some(Box::pin(trait_obj!(stash as Stream)));
+        } else {
+            fut = Some(Box::pin(trait_obj!(stash as Future)));
+        }
+    });
+    // live foreign-side handles with the task each belongs to
+    let mut handles: Vec<(Waker, usize)> = Vec::new();
+    let mut want_wakes = vec![0u64; ntask];
+    let mut caller_held = vec![1i64; ntask];
+    let mut trace = String::new();
+    let mut two_bound = false;
+    let verify = |when: &str, handles: &Vec<(Waker, usize)>, want_wakes: &Vec<u64>, caller_held: &Vec<i64>, trace: &str| -> VResult {
+        for k in 0..ntask {
+            let (v, d) = id(k);
+            let seen = T_WAKES[v][d].load(Ordering::SeqCst);
+            let live = T_LIVE[v][d].load(Ordering::SeqCst);
+            let mine = handles.iter().filter(|h| h.1 == k).count() as i64;
+            vcheck!(seen == want_wakes[k], "waker.wrong_task_woken", "wakes", "several tasks [{}] after {}: waker of task {} was woken {} time(s), the wake operations on handles obtained from it number {}", trace.trim(), when, k, seen, want_wakes[k]);
+            vcheck!(live >= caller_held[k] + mine.min(1), "waker.released_too_often", "count", "several tasks [{}] after {}: waker of task {} has {} live clone(s); the caller holds {} and {} foreign handle(s) obtained from it are alive", trace.trim(), when, k, live, caller_held[k], mine);
+            vcheck!(live <= caller_held[k] + mine, "waker.leaked_clone", "count", "several tasks [{}] after {}: waker of task {} has {} live clone(s), more than the caller's {} + {} live foreign handle(s) obtained from it", trace.trim(), when, k, live, caller_held[k], mine);
+        }
+        Ok(())
+    };
+    for i in 3..step.a.len().min(3 + 14) {
+        let c = step.arg(i).rem_euclid(1 << 20);
+        let kind = c % 7;
+        let x = (c / 7) as usize;
+        let when;
+        match kind {
+            0 | 1 => {
+                let k = x % ntask;
+                let Some(w) = callers[k].as_ref() else { continue };
+                let mut cx = Context::from_waker(w);
+                track(|| {
+                    if let Some(f) = fut.as_mut() {
+                        let _ = f.as_mut().poll(&mut cx);
+                    }
+                    if let Some(s) = strm.as_mut() {
+                        let _ = s.as_mut().poll_next(&mut cx);
+                    }
+                });
+                for h in out.lock().unwrap().drain(..) {
+                    handles.push((h, k));
+                }
+                when = format!("poll with task {}", k);
+                trace.push_str(&format!("poll{} ", k));
+                let mut seen_tasks = [false; TK];
+                for h in &handles {
+                    seen_tasks[h.1] = true;
+                }
+                if seen_tasks.iter().filter(|b| **b).count() >= 2 {
+                    two_bound = true;
+                }
+            }
+            2 if !handles.is_empty() => {
+                let (h, k) = handles.remove(x % handles.len());
+                want_wakes[k] += 1;
+                track(|| h.wake());
+                when = format!("wake of a handle of task {}", k);
+                trace.push_str(&format!("wake{} ", k));
+            }
+            3 if !handles.is_empty() => {
+                let j = x % handles.len();
+                let k = handles[j].1;
+                want_wakes[k] += 1;
+                track(|| handles[j].0.wake_by_ref());
+                when = format!("wake_by_ref of a handle of task {}", k);
+                trace.push_str(&format!("wakeref{} ", k));
+            }
+            4 if !handles.is_empty() && handles.len() < 12 => {
+                let j = x % handles.len();
+                let k = handles[j].1;
+                let c = track(|| handles[j].0.clone());
+                handles.push((c, k));
+                when = format!("clone of a handle of task {}", k);
+                trace.push_str(&format!("clone{} ", k));
+            }
+            5 if !handles.is_empty() => {
+                let (h, k) = handles.remove(x % handles.len());
+                track(|| drop(h));
+                when = format!("release of a handle of task {}", k);
+                trace.push_str(&format!("drop{} ", k));
+            }
+            6 if x % 3 == 0 => {
+                // the executor gives up its own handle of a task (the task is cancelled);
+                // retained foreign handles keep the waker alive
+                let k = (x / 3) % ntask;
+                if callers[k].take().is_none() {
+                    continue;
+                }
+                caller_held[k] = 0;
+                when = format!("caller released its waker of task {}", k);
+                trace.push_str(&format!("cancel{} ", k));
+            }
+            _ => continue,
+        }
+        verify(&when, &handles, &want_wakes, &caller_held, &trace)?;
+    }
+    // wind down: object first or handles first
+    if step.arg(2) & 2 == 2 {
+        track(|| {
+            fut = None;
+            strm = None;
+        });
+        trace.push_str("objdrop ");
+    }
+    while let Some((h, _)) = handles.pop() {
+        track(|| drop(h));
+    }
+    track(|| {
+        fut = None;
+        strm = None;
+    });
+    verify("everything foreign was released", &handles, &want_wakes, &caller_held, &trace)?;
+    callers.clear();
+    for k in 0..ntask {
+        let (v, d) = id(k);
+        let live = T_LIVE[v][d].load(Ordering::SeqCst);
+        vcheck!(live == 0, "waker.leaked_clone", "quiescence", "several tasks [{}]: waker of task {} has {} live clone(s) after the caller released its own", trace.trim(), k, live);
+    }
+    if two_bound {
+        counts.push("probe.handles_of_two_tasks_alive_together");
+    }
+    counts.push(match ident {
+        0 => "fault.caller_wakers_same_data_other_vtable",
+        1 => "fault.caller_wakers_same_vtable_other_data",
+        _ => "fault.caller_wakers_differ_in_both",
+    });
+    Ok(format!("Tasks ident={} n={} [{}]", ident, ntask, trace.trim()))
+}
+
 #[derive(Clone, Copy, Debug)]
 enum WOp {
     BorrowWake,
@@ -548,6 +778,12 @@ fn apply(st: &mut State, step: &Step, counts: &mut Vec<&'static str>) -> Result<
         return Ok(format!("outside {:?}", op));
     }
     match step.op.as_str() {
+        "Tasks" => {
+            if st.in_poll {
+                do_poll(st, counts)?;
+            }
+            tasks_sim(step, counts)
+        }
         "PBorrowClone" | "PClone" | "PWake" | "PWakeRef" | "PDrop" => {
             // the foreign plugin's side of the waker protocol, by layout only (not under Miri: the
             // mirror structures are not the types the function pointers are declared with)
@@ -714,7 +950,7 @@ fn state_hash(st: &State) -> u64 {
     h.0
 }
 
-const OPS: [&str; 16] = ["PollBegin", "PollEnd", "WBorrowWake", "WBorrowClone", "WClone", "WWake", "WWakeRef", "WDrop", "ObjDrop", "CallerDrop", "OnWake", "PBorrowClone", "PClone", "PWake", "PWakeRef", "PDrop"];
+const OPS: [&str; 17] = ["PollBegin", "PollEnd", "WBorrowWake", "WBorrowClone", "WClone", "WWake", "WWakeRef", "WDrop", "ObjDrop", "CallerDrop", "OnWake", "PBorrowClone", "PClone", "PWake", "PWakeRef", "PDrop", "Tasks"];
 
 fn new_state(kind: i64, caller_kind: i64) -> State {
     let static_caller = caller_kind == 1;
@@ -769,7 +1005,7 @@ impl Engine for WakerEngine {
         p.set("obj", rng.range(0, 2));
         p.set("caller_kind", [0, 0, 1, 2, 3, 3][rng.below(6) as usize]);
         let max_steps = if rng.chance(1, 2) { rng.range(3, 10) } else { rng.range(10, if thorough { 50 } else { 30 }) };
-        let mut w: Vec<u32> = vec![8, 8, 5, 12, 10, 8, 6, 10, 1, 1, 3, 0, 0, 0, 0, 0];
+        let mut w: Vec<u32> = vec![8, 8, 5, 12, 10, 8, 6, 10, 1, 1, 3, 0, 0, 0, 0, 0, 2];
         if rng.chance(1, 3) {
             // a foreign plugin takes part
             for (i, x) in [6u32, 4, 3, 4, 3].iter().enumerate() {
@@ -795,6 +1031,15 @@ impl Engine for WakerEngine {
                 "PollBegin" => p.push(t, op, &[rng.range(0, 2), rng.chance(1, 4) as i64]),
                 "WClone" | "PClone" => p.push(t, op, &[h0, h1]),
                 "OnWake" => p.push(t, op, &[rng.range(0, 2), h0]),
+                "Tasks" => {
+                    let mut a = vec![rng.range(0, 2), rng.range(0, 1), rng.range(0, 3)];
+                    for _ in 0..rng.range(3, 12) {
+                        // polls are frequent early on so that handles of different tasks coexist
+                        let kind = *rng.pick(&[0, 0, 1, 2, 3, 4, 4, 5, 5, 6]);
+                        a.push(kind + 7 * rng.range(0, 50));
+                    }
+                    p.push(t, op, &a);
+                }
                 "WBorrowClone" | "WWake" | "WWakeRef" | "WDrop" | "PBorrowClone" | "PWake" | "PWakeRef" | "PDrop" => p.push(t, op, &[h0]),
                 _ => p.push(t, op, &[]),
             }
